@@ -36,7 +36,7 @@ CLAIMED = {
  'C10': ('Lean 4 proof: plan-then-write model of the three declaration functions; rejected => heap unchanged for any call sequence; post-conditions; efficiency-range iffs',
          'rejected_unchanged / declareAll_step, gear_post / worm_post / joint_post, gear_rejects / worm_rejects / joint_rejects, drives_eq_declared (forward links = last accepted call per master), accepted_ratio_pos / accepted_eff_range, wormEff_range_master / wormEff_range_wheel. Tie: random pools and call sequences (mostly-valid and malformed streams), every element snapshotted before/after every call on both sides.'),
  'C11': ('Lean 4 proof: exact grid laws on the unit-carrying time axis + robustness of the guarded floor under bounded rounding perturbation (and fragility of the arange count)',
-         'steps_exact, never_beyond, fresh_axis, continued_axis, continued_axis_any_solver, stopped_axis_prefix, axis_spacing/strictMono, schedule_axis_increasing / schedule_axis_nodup (whole recorded axis strictly increasing along every schedule of runs, resets and attribute changes), count_robust, guard_suffices, arange_fragile. Tie: sweep of decimal dt x n x units through the real Solver.run (physics patched out in-process) vs the grid model; several Solver objects used in turn on one powertrain.'),
+         'steps_exact, never_beyond, fresh_axis, continued_axis, continued_axis_any_solver, stopped_axis_prefix, axis_spacing/strictMono, schedule_axis_increasing / schedule_axis_nodup (whole recorded axis strictly increasing along every schedule of runs, resets and attribute changes), reset_then_fresh_axis, count_robust, guard_suffices, arange_fragile. Tie: sweep of decimal dt x n x units through the real Solver.run (physics patched out in-process) vs the grid model; several Solver objects used in turn on one powertrain.'),
  'C12': ('Lean 4 proof: schedule equivalence (run split by grid/loop append; rerun after reset by equality of the first compute) + negation witness for the unprovisoed statement',
          'run_split, run_split_units, stop_then_continue (early stop + continuation = uninterrupted run), rerun_eq (same or new solver) under the proviso that reset restores the pre-run duty cycle or the chain is not self-locking; K3_witness / rerun_full_false show the proviso is necessary (known finding K3). Tie: schedule pairs on the real code, whole histories vs model.'),
  'C13': ('Lean 4 proof: lock state machine invariants (never clamped without self-locking, sign safety, held still, release condition)',
